@@ -7,10 +7,12 @@ import (
 	"crypto/ecdsa"
 	"fmt"
 	"math/big"
+	"strings"
 
 	abci "github.com/cometbft/cometbft/abci/types"
 	sdkmath "cosmossdk.io/math"
 	sdk "github.com/cosmos/cosmos-sdk/types"
+	txtypes "github.com/cosmos/cosmos-sdk/types/tx"
 	banktypes "github.com/cosmos/cosmos-sdk/x/bank/types"
 	"github.com/ethereum/go-ethereum/common"
 	ethtypes "github.com/ethereum/go-ethereum/core/types"
@@ -45,6 +47,8 @@ func Run(run *vh.Run) {
 	run.Floor("admitted transactions", run.Get("admitted"), int64(run.N(400, 8000)))
 	run.Floor("hostile transactions", run.Get("hostile_offered"), int64(run.N(150, 3000)))
 	run.Floor("replays attempted", run.Get("replays_offered"), int64(run.N(150, 3000)))
+	run.Floor("replays with signer_infos.sequence rewritten to the current sequence", run.Get("replays_offered_with_rewritten_sequence"), int64(run.N(30, 600)))
+	run.Floor("signing kinds of the Cosmos transactions replayed that way", int64(run.DistinctN("resequenced_replay_kinds")), 4)
 	run.Floor("admitted transactions whose execution failed (nonce must still advance)", run.Get("admitted_exec_failed"), int64(run.N(40, 800)))
 }
 
@@ -65,9 +69,10 @@ func world(run *vh.Run, label string, wi, nBlocks int) {
 	c := w.C
 	w.DeployGenerated(6, nil)
 	type old struct {
-		bytes []byte
-		desc  string
-		age   int
+		bytes  []byte
+		desc   string
+		age    int
+		sender *vh.Acct // Cosmos-lane transactions only
 	}
 	var admittedPool []old
 	for b := 0; b < nBlocks; b++ {
@@ -82,9 +87,15 @@ func world(run *vh.Run, label string, wi, nBlocks int) {
 				seq := w.NextNonce(s.Addr)
 				msg := banktypes.NewMsgSend(s.Acc(), vh.Pick(r, w.EOAs).Acc(), sdk.NewCoins(sdk.NewCoin(vh.Denom, sdkmath.NewInt(int64(1+r.Intn(1000))))))
 				gas := uint64(vh.Pick(r, []int{200000, 200000, 30000})) // 30000: out of gas after ante (sequence must still advance)
-				bz := c.CosmosTx(s, []sdk.Msg{msg}, &vh.CosmosOpts{Seq: &seq, Gas: gas})
+				// signed the plain way or the web3-wallet way (EIP-712 rendering of the sign document), in both sign modes
+				signKind := vh.Pick(r, []string{"", "", "amino", "eip712-direct", "eip712-amino"})
+				bz := c.CosmosTx(s, []sdk.Msg{msg}, &vh.CosmosOpts{Seq: &seq, Gas: gas, SignKind: signKind})
 				w.BumpPending(s.Addr)
-				plans = append(plans, &plan{TxPlan: &vh.TxPlan{Kind: "cosmos-send", Class: "ok", Sender: s, Bytes: bz}, isCosmos: true, cosmosSeq: seq})
+				kind := "cosmos-send"
+				if signKind != "" {
+					kind += ":" + signKind
+				}
+				plans = append(plans, &plan{TxPlan: &vh.TxPlan{Kind: kind, Class: "ok", Sender: s, Bytes: bz}, isCosmos: true, cosmosSeq: seq})
 			case k < 15: // hostile
 				if p := hostile(w, r, s); p != nil {
 					plans = append(plans, p)
@@ -92,6 +103,13 @@ func world(run *vh.Run, label string, wi, nBlocks int) {
 			default: // replay of an earlier admitted tx
 				if len(admittedPool) > 0 {
 					o := vh.Pick(r, admittedPool)
+					if o.sender != nil && r.Chance(2, 3) {
+						// the replayer rewrites the unsigned-looking part: signer_infos[0].sequence := the sender's sequence now
+						if bz := resequence(o.bytes, w.NextNonce(o.sender.Addr)); bz != nil {
+							plans = append(plans, &plan{TxPlan: &vh.TxPlan{Kind: "replay", Class: "replay-resequenced", Bytes: bz}, replayOf: "resequenced:" + o.desc})
+							continue
+						}
+					}
 					plans = append(plans, &plan{TxPlan: &vh.TxPlan{Kind: "replay", Class: "replay", Bytes: o.bytes}, replayOf: o.desc})
 				}
 			}
@@ -177,6 +195,10 @@ func world(run *vh.Run, label string, wi, nBlocks int) {
 			}
 			if p.replayOf != "" {
 				run.Count("replays_offered", 1)
+				if p.Class == "replay-resequenced" {
+					run.Count("replays_offered_with_rewritten_sequence", 1)
+					run.Distinct("resequenced_replay_kinds", strings.SplitN(strings.TrimPrefix(p.replayOf, "resequenced:"), "/", 2)[0])
+				}
 			}
 			run.Nontrivial(lane + "|" + cls + "|" + outcome)
 			// sequence ledger
@@ -221,7 +243,11 @@ func world(run *vh.Run, label string, wi, nBlocks int) {
 				}
 			}
 			if p.hostile == "" && p.replayOf == "" {
-				admittedPool = append(admittedPool, old{bytes: p.Bytes, desc: p.Kind + "/" + outcome})
+				o := old{bytes: p.Bytes, desc: p.Kind + "/" + outcome}
+				if p.isCosmos {
+					o.sender = p.Sender
+				}
+				admittedPool = append(admittedPool, o)
 				if len(admittedPool) > 200 {
 					admittedPool = admittedPool[50:]
 				}
@@ -303,12 +329,17 @@ func hostile(w *vh.World, r *vh.RNG, s *vh.Acct) *plan {
 		return &plan{TxPlan: &vh.TxPlan{Kind: "eth-hostile", Class: class, Sender: s, Tx: tx, Bytes: bz}, hostile: class}
 	}
 	switch k := r.Intn(11); k {
-	case 0: // unprotected (pre-EIP-155 signature)
+	case 0: // unprotected (pre-EIP-155 signature): a call, or a contract creation
+		class := "unprotected"
+		if r.Bool() {
+			base = &ethtypes.LegacyTx{Nonce: nonce, Value: big.NewInt(0), Gas: 200000, GasPrice: price, Data: vh.Deployer(vh.NewAsm().Op(vm.STOP).Bytes())}
+			class = "unprotected-create"
+		}
 		tx, err := ethtypes.SignNewTx(s.Key, ethtypes.HomesteadSigner{}, base)
 		if err != nil {
 			return nil
 		}
-		return mk("unprotected", tx, s.Addr)
+		return mk(class, tx, s.Addr)
 	case 1: // other chain id
 		other := big.NewInt(int64(vh.EIP155ID + 1 + r.Intn(5)))
 		var txd ethtypes.TxData = base
@@ -398,6 +429,29 @@ func hostile(w *vh.World, r *vh.RNG, s *vh.Acct) *plan {
 		}
 		return &plan{TxPlan: &vh.TxPlan{Kind: "cosmos-hostile", Class: class, Sender: s, Bytes: c.Encode(txb)}, hostile: class, isCosmos: true, cosmosSeq: *opts.Seq, seqRelative: class == "cosmos-wrong-sequence" || class == "cosmos-stale-sequence"}
 	}
+}
+
+// resequence returns the transaction with signer_infos[0].sequence set to seq (body bytes and signatures untouched).
+func resequence(bz []byte, seq uint64) []byte {
+	var raw txtypes.TxRaw
+	if err := raw.Unmarshal(bz); err != nil {
+		return nil
+	}
+	var ai txtypes.AuthInfo
+	if err := ai.Unmarshal(raw.AuthInfoBytes); err != nil || len(ai.SignerInfos) == 0 || ai.SignerInfos[0].Sequence == seq {
+		return nil
+	}
+	ai.SignerInfos[0].Sequence = seq
+	nb, err := ai.Marshal()
+	if err != nil {
+		return nil
+	}
+	raw.AuthInfoBytes = nb
+	out, err := raw.Marshal()
+	if err != nil {
+		return nil
+	}
+	return out
 }
 
 func otherEOA(w *vh.World, r *vh.RNG, s *vh.Acct) *vh.Acct {
